@@ -92,6 +92,16 @@ CHECKS = {
          "Per program: plugin exit status, importability, one class per message/enum (nested included), one field per schema field with equal number, proto type, cardinality from the resolved type hints, map key/value types, oneof group, optional flag, wrapper/Timestamp/Duration mapping, resolved class identity of references, enum numbers; generated classes are additionally compared with classes built through the public field API (same metadata, same bytes), which transfers the small-scope results to generated code. The bundled descriptor / well-known-type / plugin classes are compared with descriptor.proto, plugin.proto and the WKT descriptors on every shared field.",
          "proto3 only; ruff replaced by an identity shim; class names are located with the implementation's naming function",
          "DESIGN.md §4 C03"),
+ "C13": ("exploration",
+         "exhaustive enumeration of package topologies: every ordered pair of the 15 package paths of depth 0..3 over {a,b} (each compiled alone), all packages referencing each other at once, and well-known types from every depth, compiled with the real plugin, imported, and checked by class identity",
+         "For every program the resolved type hint of each referring field (singular, repeated, map value, oneof member) and each rpc handler's request/reply type must BE the class generated for the target (message, nested message, enum, nested enum), a message built through the references must round-trip through the wire and JSON, and well-known types must resolve to the bundled classes.",
+         "package path alphabet {a,b}; the schedule/import order is the natural one",
+         "DESIGN.md §4 C13"),
+ "C18": ("translation_validation",
+         "exhaustive enumeration of option sets (3 typing modes x std/pydantic) x schemas (every structure atom, an everything-schema, cross-package programs; all atom pairs in the thorough tier), each compiled with the real plugin, imported and compared with the default configuration",
+         "Every variant must import; class sets, field numbers, proto types, map types, oneof groups, wrapper mapping, enum members and generated service classes must equal the default configuration's; a deterministic sample value of every message class (derived from metadata and resolved hints) must encode to identical bytes and identical JSON under all six configurations.",
+         "pydantic oneof members are Optional by design and are compared modulo that",
+         "DESIGN.md §4 C18"),
 }
 
 NOT_APPLICABLE_REASON = "check not built yet in this session; see DESIGN.md for the planned bounded-exhaustive exploration"
